@@ -22,6 +22,10 @@ Record step := {
   o_out : option (string * list (string * list N))   (* observed: pkgdesc recorded, files readable afterwards *)
 }.
 
+(* a tar entry as the harness reads it: the PAX records verbatim; the recorded checksum is
+   decoded by the model (checksum_from_header) *)
+Record rfile := { r_name : string; r_kind : fkind; r_body : list N; r_pax : list (string * string); r_link : string; r_sparse : bool }.
+
 Record seq_case := {
   q_sha1 : list (list N * list N);   (* SHA-1 of the members and file bodies in play *)
   q_sha256 : list (list N * list N); (* SHA-256 of the byte strings that can be taken as data section *)
@@ -29,7 +33,7 @@ Record seq_case := {
   q_first : list (list N * option string);                   (* first tar header name of a member *)
   q_ctl : list (list N * option (string * string));          (* a member read as control section: pkgdesc, text of .PKGINFO *)
   q_gunzip : list (list N * option (list N));                (* data bytes -> tar *)
-  q_untar : list (list N * option (list dfile));             (* tar -> entries *)
+  q_untar : list (list N * option (list rfile));             (* tar -> entries *)
   q_steps : list step
 }.
 
@@ -68,7 +72,10 @@ Section Run.
   Let first_name := otable (q_first c).
   Let ctl_view := otable (q_ctl c).
   Let gunzip := otable (q_gunzip c).
-  Let untar := otable (q_untar c).
+  Let untar := fun t =>
+    option_map (List.map (fun r => {| f_name := r_name r; f_kind := r_kind r; f_body := r_body r;
+                                      f_sum := checksum_from_header b64 (r_pax r); f_link := r_link r; f_sparse := r_sparse r |}))
+               (otable (q_untar c) t).
 
   (* what was installed, identified among everything in play: every (control member,
      data bytes) pair whose recorded description is the observed one and whose
@@ -120,7 +127,7 @@ Section Run.
                       match s_whole s with Some st => sig2 first_name st | None => false end) (q_steps c).
   (* a data section with a sparse entry is in play (fixed finding C05-F4) *)
   Definition any_sparse : bool :=
-    existsb (fun r => match snd r with Some fs => existsb f_sparse fs | None => false end) (q_untar c).
+    existsb (fun r => match snd r with Some fs => existsb r_sparse fs | None => false end) (q_untar c).
   Definition mechanism (seen : list handle) (h : handle) : string :=
     if any_sig2 then "/sign-first-two-members"
     else if any_sparse then "/sparse-entry-lazy"
